@@ -79,6 +79,19 @@ fn main() {
         "replay" => control::replay(&args),
         "worker" => worker::worker_main(&args),
         "one" => worker::one_main(&args),
+        "slice" => worker::slice_main(&args),
+        "runs" => {
+            // index-space size of the first (debug) batch of a property's tier
+            let prop = args.pos.get(1).cloned().unwrap_or_default();
+            let tier = engines::Tier::parse(args.get("tier").unwrap_or("quick")).unwrap_or(engines::Tier::Quick);
+            match engines::spec(&prop, tier) {
+                Some(s) => {
+                    println!("{} {}", s.batches[0].engine, s.batches[0].runs);
+                    0
+                }
+                None => 2,
+            }
+        }
         "exec-case" => worker::exec_case_main(&args),
         "gen" => worker::gen_main(&args),
         _ => {
